@@ -296,6 +296,9 @@ func runCheck(o *options) int {
 }
 
 func partialClaims(fc *FuncContract, ob *Obligation) bool {
+	if os.Getenv("GOVC_ALLKINDS") != "" {
+		return true // exploration: attempt every obligation of partial contracts
+	}
 	for _, k := range fc.Partial {
 		if k == ob.Kind || strings.HasPrefix(ob.Kind+"["+ob.Anchor, k) {
 			return true
